@@ -367,6 +367,70 @@ pub fn run(ctx: &mut Ctx) {
         ctx.distinct(hash64(&[0xAB, i, ctx.shard]));
         ctx.count("stun-like-payload-cases");
     }
+    // ---- a connection that buffered several maximum-size frames at once (far more than one frame
+    //      of backlog), was drained, and then drips: every byte pushed afterwards still counts ----
+    {
+        let mut rng = ctx.rng("backlog-then-drip", 0);
+        for k in 0..ctx.n(24, 240) {
+            let nbig = 2 + (k % 4) as usize;
+            let mut frames: Vec<usize> = (0..nbig).map(|_| *rng.pick(&[65_535usize, 65_534, 65_000, 40_000])).collect();
+            let big_bytes: usize = frames.iter().map(|n| n + 2).sum();
+            let ntail = 2 + rng.usize(5);
+            for _ in 0..ntail {
+                frames.push(*rng.pick(&[0usize, 1, 2, 3, 5, 7, 255, 256]));
+            }
+            let tail_bytes: usize = frames[nbig..].iter().map(|n| n + 2).sum();
+            let mut chunks = match k % 3 {
+                0 => vec![big_bytes],
+                1 => vec![big_bytes / 2, big_bytes - big_bytes / 2],
+                _ => vec![big_bytes + 1],
+            };
+            let mut left = tail_bytes - (chunks.iter().sum::<usize>() - big_bytes);
+            while left > 0 {
+                let c = if k % 2 == 0 { 1 } else { 1 + rng.usize(2) }.min(left);
+                chunks.push(c);
+                left -= c;
+            }
+            let c = Case { frames, chunks, pulls: if k % 5 == 4 { vec![false, true] } else { vec![] }, salt: rng.byte(), style: (k % 3) as u8 };
+            check_case(ctx, &c);
+            ctx.count("backlog-then-drip-cases");
+        }
+        ctx.require("backlog-then-drip-cases", 24);
+    }
+    // ---- one connection that lives long: more than 4 GiB through a single buffer (one shard per
+    //      build; maximum-size frames, pulled as they complete) ----
+    if ctx.shard == 0 && !cfg!(miri) {
+        let r = guard(|| {
+            let mut tb = TcpBuffer::new();
+            let mut frame = vec![0xffu8, 0xff];
+            frame.extend(std::iter::repeat(0x6c).take(65_535));
+            let mut bad: Option<u64> = None;
+            let total_frames = 65_700u64;
+            for i in 0..total_frames {
+                frame[2] = i as u8;
+                frame[3] = (i >> 8) as u8;
+                tb.push_data(&frame);
+                match tb.pull_data() {
+                    Some(d) if d.len() == 65_535 && d[0] == i as u8 && d[1] == (i >> 8) as u8 && d[65_534] == 0x6c => {}
+                    other => {
+                        bad = Some(i);
+                        let _ = other;
+                        break;
+                    }
+                }
+                if tb.pull_data().is_some() {
+                    bad = Some(i);
+                    break;
+                }
+            }
+            (bad, total_frames)
+        });
+        match r {
+            Err(p) => ctx.violation("C14", "no-panic", "TcpBuffer", "long-lived-connection", || json!({"kind": "tcp-long-lived"}), "frames".into(), format!("panic: {} at {}", p.msg, p.loc)),
+            Ok((Some(i), _)) => ctx.violation("C14", "frames-in-order", "TcpBuffer::pull_data", "long-lived-connection", || json!({"kind": "tcp-long-lived"}), format!("frame #{i} (65535 bytes) returned by the pull after its last byte was pushed, and nothing more"), "something else".into()),
+            Ok((None, n)) => ctx.count_n("bytes-through-one-long-lived-buffer", n * 65_537),
+        }
+    }
     ctx.require("stun-like-payload-cases", 1_000);
     ctx.require("tracing-events-seen-under-the-subscriber", 10_000);
     ctx.require("compositions", 10_000);
@@ -377,6 +441,17 @@ pub fn run(ctx: &mut Ctx) {
 }
 
 pub fn replay(ctx: &mut Ctx, w: &Value) -> Result<(), String> {
+    if w.get("kind").and_then(|k| k.as_str()) == Some("tcp-long-lived") {
+        // the long-lived connection is part of every run of shard 0: run it again
+        let mut c2 = Ctx::new_quiet(&ctx.prop.clone(), ctx.tier, ctx.seed, 0, ctx.nshards);
+        run(&mut c2);
+        for v in c2.violations.clone() {
+            if v["feature"].as_str() == Some("long-lived-connection") {
+                ctx.violation("C14", v["assertion"].as_str().unwrap_or(""), v["entry"].as_str().unwrap_or(""), "long-lived-connection", || v["witness"].clone(), v["expected"].as_str().unwrap_or("").to_string(), v["observed"].as_str().unwrap_or("").to_string());
+            }
+        }
+        return Ok(());
+    }
     let c = Case::from_json(w).ok_or("bad case")?;
     check_case(ctx, &c);
     Ok(())
